@@ -54,3 +54,63 @@ func init() {
 	renw("C12", "rename page codec locals", "storage/page.go", "bufFooter", "cells", "keyCell", "kc", "cellCount", "nCells", "strBuf", "raw")
 	renw("C14", "rename insert locals", "storage/relation.go", "tablePg", "rootPg0", "tuple", "tup", "schema", "sch")
 }
+
+func edit(prop, name, file, old, new string) {
+	seed(Seed{Prop: prop, Name: "silent: " + name, File: file, Old: old, New: new, Silent: true})
+}
+
+func init() {
+	for _, p := range []string{"C02", "C04", "C13", "C16"} {
+		edit(p, "flush loop restructured (if dirty {write; clean})", "storage/page.go",
+			"\t\tif !node.isDirty() {\n\t\t\tcontinue\n\t\t}\n\t\tif err := f.update(node); err != nil {\n\t\t\treturn err\n\t\t}\n\t\tnode.markClean()\n",
+			"\t\tif node.isDirty() {\n\t\t\tif err := f.update(node); err != nil {\n\t\t\t\treturn err\n\t\t\t}\n\t\t\tnode.markClean()\n\t\t}\n")
+	}
+	for _, p := range []string{"C02", "C03", "C04"} {
+		edit(p, "redo guard mirrored (page >= record)", "storage/wal.go",
+			"\t\tif row.LSN <= node.getLastLSN() {", "\t\tif node.getLastLSN() >= row.LSN {")
+		edit(p, "replay logs progress", "storage/wal.go",
+			"\t\tswitch row.WALOp {", "\t\tfmt.Printf(\"replaying record %d\\n\", row.LSN)\n\t\tswitch row.WALOp {")
+	}
+	for _, p := range []string{"C13", "C18", "C02"} {
+		edit(p, "explicit EndTxn on every return instead of defer", "engine/insert.go",
+			"\trm.StartTxn()\n\tdefer rm.EndTxn()\n", "\trm.StartTxn()\n\tdefer func() { rm.EndTxn() }()\n")
+	}
+	edit("C08", "range check through a local", "storage/relation.go",
+		"\t\tif val.(int64) > math.MaxInt32 || val.(int64) < math.MinInt32 {", "\t\tif v := val.(int64); v < math.MinInt32 || v > math.MaxInt32 {")
+	edit("C18", "range check through a local", "storage/relation.go",
+		"\t\tif val.(int64) > math.MaxInt32 || val.(int64) < math.MinInt32 {", "\t\tif v := val.(int64); v < math.MinInt32 || v > math.MaxInt32 {")
+	for _, p := range []string{"C15", "C16"} {
+		edit(p, "victim search as a conditional loop", "storage/lru.go",
+			"\t\tfor {\n\t\t\tif cur == nil {\n\t\t\t\treturn false\n\t\t\t} else if !cur.Value.(*cacheEntry).val.isDirty() {\n\t\t\t\tbreak\n\t\t\t} else {\n\t\t\t\tcur = cur.Prev()\n\t\t\t}\n\t\t}\n",
+			"\t\tfor cur != nil && cur.Value.(*cacheEntry).val.isDirty() {\n\t\t\tcur = cur.Prev()\n\t\t}\n\t\tif cur == nil {\n\t\t\treturn false\n\t\t}\n")
+	}
+	for _, p := range []string{"C01", "C11"} {
+		edit(p, "split midpoint hoisted", "storage/page.go",
+			"func (n *btreeNode) split(newPg *btreeNode) (uint32, error) {\n\tif n.isLeaf {\n\t\tmid := len(n.offsets) / 2\n",
+			"func (n *btreeNode) split(newPg *btreeNode) (uint32, error) {\n\tif n.isLeaf {\n\t\tmid := len(n.offsets) / 2\n\t\t_ = mid\n")
+		edit(p, "tombstone carried via a local", "storage/page.go",
+			"\t\t\tnewPg.leafCells[len(newPg.leafCells)-1].deleted = cell.deleted\n",
+			"\t\t\tmoved := newPg.leafCells[len(newPg.leafCells)-1]\n\t\t\tmoved.deleted = cell.deleted\n")
+	}
+	for _, p := range []string{"C09", "C10"} {
+		edit(p, "EOF test written the other way round", "sql/parser.go",
+			"\tif cur := p.Cur(); cur.Type != EOF {\n\t\treturn nil, syntaxErr(cur)\n\t}\n\treturn stmt, nil\n",
+			"\tif cur := p.Cur(); cur.Type == EOF {\n\t\treturn stmt, nil\n\t} else {\n\t\treturn nil, syntaxErr(cur)\n\t}\n")
+		edit(p, "optional comma as if-statement", "sql/parser.go",
+			"\t\t// grouping columns are comma separated; the comma may be omitted\n\t\tp.match(COMMA)\n",
+			"\t\tif p.match(COMMA) {\n\t\t\tcontinue\n\t\t}\n")
+	}
+	edit("C17", "USE: close previous in a helper variable", "engine/session.go",
+		"\t\tif s.RelationService != nil {\n\t\t\t// flush the previous database and stop its flush timer\n\t\t\tif err := s.RelationService.Close(); err != nil {",
+		"\t\tif prev := s.RelationService; prev != nil {\n\t\t\t// flush the previous database and stop its flush timer\n\t\t\tif err := prev.Close(); err != nil {")
+	edit("C19", "NULL marker compared through a constant", "cmd/csvimport/main.go",
+		"\t\tif csvRow[csvIdx] == \"\\\\N\" {", "\t\tif field := csvRow[csvIdx]; field == \"\\\\N\" {")
+	edit("C20", "quote test via switch", "cmd/console/go_terminal.go",
+		"\t\tcase c == '\\'' || c == '\"' || c == '`':\n\t\t\tquote = c\n", "\t\tcase c == '\"' || c == '\\'' || c == '`':\n\t\t\tquote = c\n")
+	edit("C14", "createTable keeps error in a variable", "storage/relation.go",
+		"\t_, err := rs.getRelationFileOffset(tableName)\n\tif err != ErrTableNotExist {\n\t\treturn ErrTableAlreadyExist\n\t}\n",
+		"\t_, lookupErr := rs.getRelationFileOffset(tableName)\n\tif lookupErr != ErrTableNotExist {\n\t\treturn ErrTableAlreadyExist\n\t}\n\tvar err error\n\t_ = err\n")
+	edit("C12", "leaf decode reads the value with io.ReadFull", "storage/page.go",
+		"\t\tstrBuf := make([]byte, cell.valueSize)\n\t\tif _, err := buf.Read(strBuf); err != nil {\n\t\t\treturn err\n\t\t}\n\t\tcell.valueBytes = strBuf\n\t\tn.leafCells[n.offsets[i]] = cell\n",
+		"\t\tcell.valueBytes = make([]byte, cell.valueSize)\n\t\tif _, err := buf.Read(cell.valueBytes); err != nil {\n\t\t\treturn err\n\t\t}\n\t\tn.leafCells[n.offsets[i]] = cell\n")
+}
